@@ -159,16 +159,20 @@ def r12b(run):
     # tuple surplus gate
     g = run.repo.func("utype.parser.rule", "Rule._parse_tuple_args")
     ga = analysis(g)
-    gates = [n for n in ga.cfg.nodes if n.kind == "test" and "no_data_loss" in unparse(n.ast) and "addition" in unparse(n.ast)]
+    # the reject (TupleExceedError) runs whenever no_data_loss is set: among the must-facts of the reject, the flag occurs
+    # positively (alone or in a disjunction, e.g. with `addition is False`) and no fact asks for it to be off or for any
+    # other option
+    from ..lib import clauses_at
     ok = False
-    for n in gates:
-        for a, p in decompose(n.ast, False):
-            pass
-        # reject branch: (addition is False or no_data_loss) -> TupleExceedError
-        tb = [s for s, k in n.succ if s.kind == "branch" and s.polarity]
-        if tb and isinstance(n.ast, ast.BoolOp) and isinstance(n.ast.op, ast.Or):
-            reach = ga.cfg.reach_from_succ(tb[0], kinds=(N,)) | {tb[0]}
-            ok = any(m.ast is not None and "TupleExceedError" in unparse(m.ast) for m in reach)
+    rejects = [n for n in ga.cfg.nodes if n.kind == "stmt" and n.ast is not None and ga.cfg.is_live(n)
+               and any(isinstance(x, ast.Call) and (call_attr(x) or "").endswith("TupleExceedError") for x in ast.walk(n.ast))]
+    for n in rejects:
+        cls_ = clauses_at(ga, n)
+        pos = [c for c in cls_ if any(t.endswith("no_data_loss") and p for t, p in c)]
+        neg = [c for c in cls_ if any(t.endswith("no_data_loss") and not p for t, p in c)]
+        other = [c for c in cls_ if c not in pos and any("options." in t and "addition" not in t for t, p in c)]
+        if pos and not neg and not other:
+            ok = True
     run.check("R12b", g, "surplus tuple items are rejected under no_data_loss (or addition=False)", ok,
               construct="tuple surplus gate", message="_parse_tuple_args no longer rejects surplus items when "
               "options.no_data_loss is set", necessity="extra tuple items are dropped silently under no_data_loss")
